@@ -1,7 +1,7 @@
 (* C09 — property theorems only. *)
 From Coq Require Import ZArith NArith List Bool String.
 From Falcon.lib Require Import PyStr.
-From Falcon.C09 Require Import Model Spec Proofs.
+From Falcon.C09 Require Import Model Spec SpecRfc Proofs ProofsEtag ProofsCookie ProofsForwarded ProofsRoute.
 Import ListNotations.
 
 (* ---- for invalid input: a lenient reading or a 400-class error, never another exception *)
@@ -79,6 +79,73 @@ Theorem C09_etag_single_roundtrip_partial : forall w v,
 Proof. exact etag_loads_render. Qed.
 Print Assumptions C09_etag_single_roundtrip_partial.
 
+(* ---- the list-valued headers: whenever the independent recursive-descent reader of SpecRfc.v
+   accepts the header, the accessor returns exactly its reading.  (These accessors have no raising
+   primitive in the model: they are total functions; "never another exception" for the real code is
+   the harness's binding clause.) *)
+
+(* If-Match / If-None-Match = "*" / 1#entity-tag (RFC 9110 8.8.3, 13.1) *)
+Theorem C09_if_match_valid : forall v l, rfc_etags v = Some l -> if_match_acc (Some v) = Some l.
+Proof. exact if_match_valid. Qed.
+Print Assumptions C09_if_match_valid.
+
+(* Cookie = cookie-string (RFC 6265 4.2.1): the pairs in order, grouped by name; quoted values go
+   through the unquoting oracle (Unq), exactly the ones the RFC grammar quotes *)
+Theorem C09_cookies_valid : forall v pairs,
+  rfc_cookie_string v = Some pairs -> parse_cookie_header true v = cookie_group pairs.
+Proof. exact cookies_valid. Qed.
+Print Assumptions C09_cookies_valid.
+
+Theorem C09_cookies_acc_valid : forall v pairs,
+  rfc_cookie_string v = Some pairs ->
+  cookies_acc true (Some v) = map (fun p => (fst p, hd (Raw []) (snd p))) (cookie_group pairs).
+Proof. exact cookies_acc_valid. Qed.
+Print Assumptions C09_cookies_acc_valid.
+
+(* Forwarded (RFC 7239 4): elements in order, parameters case-insensitive, quoted-pairs resolved *)
+Theorem C09_forwarded_valid : forall v l, rfc_forwarded v = Some l -> parse_forwarded v = l.
+Proof. exact forwarded_valid. Qed.
+Print Assumptions C09_forwarded_valid.
+
+(* RFC 7239 6 node (IPv4 / bracketed IPv6 / unknown / obfuscated, optional port or obfuscated port):
+   the nodename without brackets and port *)
+Theorem C09_node_valid : forall v n, rfc_node v = Some n -> exists p, parse_host true v None = Ok (n, p).
+Proof. exact node_valid. Qed.
+Print Assumptions C09_node_valid.
+
+(* access_route: Forwarded > X-Forwarded-For > X-Real-IP > remote address *)
+Theorem C09_access_route_valid : forall asgi fw xff xreal remote r,
+  rfc_access_route asgi fw xff xreal remote = Some r ->
+  access_route true asgi fw xff xreal remote = Ok r.
+Proof. exact access_route_valid. Qed.
+Print Assumptions C09_access_route_valid.
+
+Theorem C09_forwarded_scheme_valid : forall fw xproto scheme s,
+  rfc_forwarded_scheme fw xproto scheme = Some s -> forwarded_scheme fw xproto scheme = s.
+Proof. exact forwarded_scheme_valid. Qed.
+Print Assumptions C09_forwarded_scheme_valid.
+
+Theorem C09_forwarded_host_valid : forall fw xhost netloc s,
+  rfc_forwarded_host fw xhost netloc = Some s -> forwarded_host fw xhost netloc = s.
+Proof. exact forwarded_host_valid. Qed.
+Print Assumptions C09_forwarded_host_valid.
+
+(* forwarded_uri / forwarded_prefix: composed from those readings, under any interleaving of reads *)
+Theorem C09_forwarded_uri_valid : forall fw xproto xhost e s h l,
+  rfc_forwarded_scheme fw xproto (e_scheme e) = Some s ->
+  rfc_forwarded_host fw xhost (e_netloc e) = Some h ->
+  e_fwd_scheme e = forwarded_scheme fw xproto (e_scheme e) ->
+  e_fwd_host e = forwarded_host fw xhost (e_netloc e) ->
+  fst (reads e l cache0) = map (fresh e) l /\
+  fresh e A_forwarded_uri = s ++ s_sep ++ h ++ fresh_relative e /\
+  fresh e A_forwarded_prefix = s ++ s_sep ++ h ++ e_root_path e.
+Proof.
+  intros fw xp xh e s h l Hs Hh Es Eh. split; [apply acc_stable|].
+  apply forwarded_scheme_valid in Hs. apply forwarded_host_valid in Hh.
+  cbn [fresh]. rewrite Es, Eh, Hs, Hh. split; reflexivity.
+Qed.
+Print Assumptions C09_forwarded_uri_valid.
+
 (* ---- repeated access: cached value = fresh value, for every interleaving of reads *)
 Theorem C09_acc_stable : forall e l, fst (reads e l cache0) = map (fresh e) l.
 Proof. exact acc_stable. Qed.
@@ -122,4 +189,29 @@ Example C09_valid_inputs_exist :
   range (Some (lit "bytes=5-1")) = Http400 /\
   access_route true false (Some (lit "for=""192.0.2.43:_obf"", for=198.51.100.17")) None None (lit "10.0.0.9")
     = Ok [lit "192.0.2.43"; lit "198.51.100.17"; lit "10.0.0.9"].
+Proof. vm_compute. repeat split; reflexivity. Qed.
+
+(* the valid languages of SpecRfc.v are inhabited by the RFCs' own examples *)
+Example C09_rfc_examples :
+  rfc_etags (lit "W/""67ab43"", ""54ed21"",""7892dd""")
+    = Some [Tag true (lit "67ab43"); Tag false (lit "54ed21"); Tag false (lit "7892dd")] /\
+  rfc_etags (lit "*") = Some [Star] /\
+  rfc_etags (lit """a,b""") = Some [Tag false (lit "a,b")] /\
+  rfc_etags (lit """a"" ") = None /\
+  rfc_cookie_string (lit "SID=31d4d96e407aad42; lang=""en-US""; SID=2")
+    = Some [(lit "SID", Raw (lit "31d4d96e407aad42")); (lit "lang", Unq (lit """en-US""")); (lit "SID", Raw (lit "2"))] /\
+  rfc_cookie_string (lit "a=1;b=2") = None /\
+  rfc_forwarded (lit "For=""[2001:db8:cafe::17]:4711"";proto=HTTPS, for=192.0.2.43;by=_hidden;host=""a\""b""")
+    = Some [{| f_src := Some (lit "[2001:db8:cafe::17]:4711"); f_dest := None; f_host := None;
+               f_scheme := Some (lit "https") |};
+            {| f_src := Some (lit "192.0.2.43"); f_dest := Some (lit "_hidden");
+               f_host := Some (lit "a""b"); f_scheme := None |}] /\
+  rfc_forwarded (lit "for=a;for=b") = None /\
+  rfc_node (lit "[2001:db8:cafe::17]:_obf") = Some (lit "2001:db8:cafe::17") /\
+  rfc_access_route false (Some (lit "for=""[::1]:_p"", for=unknown;by=x, proto=http")) None None (lit "10.0.0.9")
+    = Some [lit "::1"; lit "unknown"; lit "10.0.0.9"] /\
+  rfc_access_route false None (Some (lit "1.1.1.1 ,2.2.2.2")) (Some (lit "9.9.9.9")) (lit "2.2.2.2")
+    = Some [lit "1.1.1.1"; lit "2.2.2.2"] /\
+  rfc_forwarded_scheme (Some (lit "for=x;proto=HTTPS, proto=ws")) (Some (lit "ftp")) (lit "http") = Some (lit "https") /\
+  rfc_forwarded_host (Some (lit "for=x")) (Some (lit "ignored")) (lit "h:81") = Some (lit "h:81").
 Proof. vm_compute. repeat split; reflexivity. Qed.
